@@ -112,6 +112,9 @@ TEMPLATES = {
     "array_of_class": ("m: int", "Array(_M(m), minItems=1)", "List[Dict[str, int]]", ["len(v) <= 2", "all(len(d) <= 1 and all(k in ('a', 'b') for k in d) for d in v)"], None, "quick"),
     "tuple_items": ("m: int", "Array([Integer(minimum=m), _M(m)], additionalItems=False)", "List[Union[int, Dict[str, int]]]", ["len(v) <= 3", "all((not isinstance(d, dict)) or (len(d) <= 1 and all(k in ('a', 'b') for k in d)) for d in v)"], None, "thorough"),
     "composition": ("m: int", 'OneOf(_M(m), Object.inline("N", properties={"b": Property(Integer(), required=True)}), Integer(maximum=m))', "Union[int, Dict[str, int]]", ["not isinstance(v, dict) or (len(v) <= 2 and all(k in ('a', 'b') for k in v))"], None, "quick"),
+    "nested_oneof": ("m: int", "OneOf(OneOf(Integer(), Number()), Element(minimum=m))", "Union[int, str, bool]", ["not isinstance(v, str) or len(v) <= 1"], None, "quick"),
+    "nested_anyof_allof": ("m: int", "AnyOf(AnyOf(Integer(minimum=m), String()), AllOf(AllOf(Element(maximum=m), Integer()), Element(multipleOf=2)))", "Union[int, str, bool]", ["not isinstance(v, str) or len(v) <= 1"], None, "quick"),
+    "parsed_nested_oneof": ("m: int", 'parse_s({"oneOf": [{"oneOf": [{"type": "integer"}, {"type": "number"}]}, {"minimum": m}, {"oneOf": [{"type": "string"}]}]})', "Union[int, str, bool]", ["not isinstance(v, str) or len(v) <= 1"], None, "quick"),
     "not_allof": ("m: int", "AllOf(Not(Integer(minimum=m)), Element(required=['a']), AnyOf(Integer(), Element(minProperties=1)))", "Union[int, Dict[str, int]]", ["not isinstance(v, dict) or (len(v) <= 2 and all(k in ('a', 'b') for k in v))"], None, "thorough"),
     "definitions_leaf": ("m: int", 'Element(properties={"a": Property(Integer(minimum=m)), "b": Property(Integer(minimum=m), required=True)}, additionalProperties=Integer(maximum=m))', DV, DPRE, 'lambda E: {"D": Integer(minimum=m)}', "quick"),
     "definitions_inner": ("m: int", 'Element(properties={"x": Property(Array(Integer(minimum=m)))}, additionalProperties=Array(Integer(minimum=m)))', "Dict[str, List[int]]", ["len(v) <= 2", "all(k in ('x', 'y') for k in v)", "all(len(l) <= 2 for l in v.values())"], 'lambda E: {"Arr": E.properties["x"].element, "I": E.properties["x"].element.items}', "quick"),
